@@ -539,7 +539,7 @@ func runSchedScript(t *testing.T, sc Script, log *Log, next int) {
 	st := &dbState{
 		metrics: &dbMetrics{grave: map[string]int{}, trk: map[string]int{}},
 		tables:  map[int]*dbTable{}, wtxns: map[int]statedb.WriteTxn{}, snaps: map[int]statedb.ReadTxn{},
-		chans: map[int]<-chan struct{}{}, iters: map[int]*dbIter{}, dones: map[string]func(statedb.WriteTxn){},
+		chans: map[int]<-chan struct{}{}, iters: map[int]*dbIter{}, obs: map[int]*dbObserver{}, dones: map[string]func(statedb.WriteTxn){},
 		open: map[int]bool{}, held: map[int]int{}, concurrent: true, nilEmpty: cfg.NilEmpty,
 	}
 	st.db = statedb.New(statedb.WithMetrics(st.metrics))
